@@ -51,6 +51,34 @@ CHECKS.update({
    note=CODEC_NOTE + " The version's own codec is the reference here (it is judged by C01)."),
 })
 
+TYPED_NOTE = "Trusts the independent wowm model, the build-script scanner that lists the generated public types (a type it misses is not checked; counts are in the evidence), proptest."
+CHECKS.update({
+ "C11": dict(engine="typed_harness", category="exploration", design="DESIGN.md §2 C11",
+   technique="exhaustive sweep of every declared enumerator plus boundary/alias/random undeclared values (proptest) through every conversion of every generated enum, against the wowm model",
+   text="For every generated enum type (world, base and login crates; found by scanning the generated sources) every declared enumerator is converted from its integer and its name in both directions and must agree with the wowm declaration; undeclared values (neighbours, width aliases, extremes, proptest draws) must be rejected by every TryFrom width, and as_int / Display / FromStr / Default must be mutually consistent.",
+   note=TYPED_NOTE),
+ "C12": dict(engine="typed_harness", category="exploration", design="DESIGN.md §2 C12",
+   technique="algebraic-law PBT (proptest) over every stand-alone flag type: set/clear/get/is_empty/new/as_int/bit operators against an integer model; declared constants against the wowm model",
+   text="For each generated stand-alone flag type every declared enumerator constant, predicate, setter and clearer is compared with the wowm declaration and with an integer model over all-zero, all-one, single-bit, multi-bit and proptest-drawn raw values; From/TryFrom of every width must preserve the value or fail.",
+   note=TYPED_NOTE + " Message-local synthesised flag structs are covered for their constants only where the scanner finds them (see evidence counts)."),
+ "C13": dict(engine="typed_harness", category="exploration", design="DESIGN.md §2 C13",
+   technique="model-based stateful PBT: exhaustive short and proptest-generated long histories of typed setter/getter/dirty operations on every update-mask kind against a sparse map model; wire image decoded by the independent wowm model; offsets from the published field table",
+   text="Every generated accessor (1221 plain, 441 indexed slots, 21 kinds x 3 expansions) is set, read back and located on the wire at the offset the published update-mask table gives; histories of set / overwrite / header-dirty / serialise / re-read operations are run against a map model after each step, exhaustively to depth 4 on a reduced alphabet and by proptest beyond.",
+   note=TYPED_NOTE + " The half-word order inside two-u16 fields is not prescribed by the table and either packing is accepted."),
+})
+
+GEN_NOTE = "Trusts the independent wowm model, rsync/scratch-tree plumbing, and that the generator binary built from /repo's working tree with --cfg wowm_verif (workspace-path hook only) behaves as the unhooked one. Scratch trees live under the system temp dir and are removed at exit."
+CHECKS.update({
+ "C08": dict(engine="gencheck", category="exploration", design="DESIGN.md §2 C08",
+   technique="stateful PBT over generator-run histories on scratch trees: proptest-generated perturbations (delete / truncate / stale / extra / append) of generated artefacts followed by generator runs; metamorphic oracle (same input => same tree) and drift check against the committed tree",
+   text="The real generator is run repeatedly on scratch copies: a fresh run must reproduce the committed artefacts byte for byte (files emptied in this checkout are compared between runs instead), a second run must change nothing, independent runs in different directories must agree, and after every proptest-generated history of perturbations of generated files one run must converge to the reference tree.",
+   note=GEN_NOTE),
+ "C16": dict(engine="gencheck", category="fault_enumeration", design="DESIGN.md §2 C16",
+   technique="fault injection: per language rule, injection sites enumerated over the real corpus through the independent model's syntax tree, a seed-chosen stratified subset applied as single textual edits, real generator run on scratch trees; oracle = the rule's exit status and a diagnostic naming the file",
+   text="25 rule variants (every rule of the statement) are injected at sites spread over top level, struct members, if / else-if / else / optional bodies, tag_all files and paste_versions objects (10 sites per variant quick, 200 thorough out of 15-2200 candidates each); each must stop the generator with that rule's exit status; the unmodified tree must exit 0.",
+   note=GEN_NOTE + " Each edit is constructed to break exactly one rule; sites whose type differs between the versions of a pasted object are skipped."),
+})
+
 PENDING = {}
 
 def main():
@@ -81,6 +109,8 @@ def main():
             {"name": "base_harness", "path": "harness/base_harness", "serves_properties": ["C15", "C20"], "kind_free_text": "Rust binary linking /repo/wow_world_base; exhaustive sweep (C15) and proptest search (C20)"},
             {"name": "wowm_model", "path": "harness/model", "serves_properties": ["C01", "C02", "C03", "C04", "C05", "C06", "C14"], "kind_free_text": "independent reading of the wowm language: parser, resolver, tape-driven encoder/decoder with trace, exact size analysis"},
             {"name": "codec_harness", "path": "harness/codec_harness", "serves_properties": ["C01", "C02", "C03", "C04", "C05", "C06", "C14"], "kind_free_text": "Rust binary linking /repo's three libraries with all features; generic endpoints over the public opcode enums, typed expect_* helpers, scripted async transport, isolated worker processes"},
+            {"name": "typed_harness", "path": "harness/typed_harness", "serves_properties": ["C11", "C12", "C13"], "kind_free_text": "Rust binary linking /repo's libraries; build script scans the generated sources for public enum / flag / update-mask types and emits adapters; expected behaviour from the wowm model and the published update-mask table"},
+            {"name": "gencheck", "path": "harness/gencheck", "serves_properties": ["C08", "C16"], "kind_free_text": "drives the real generator (built from /repo's working tree) on rsync'ed scratch trees: run histories, perturbations, fault injection into the wowm corpus"},
         ],
         "checks": checks,
         "notes": "All checks: property-based testing / fuzzing (generated-input search against an explicit oracle). ./check <ID> <tier> rebuilds the harness from /repo's working tree with cargo (offline) and runs it; VERIF_SEED selects the proptest seed. Exit 2 = infrastructure problem or inconclusive, never a violation. known_findings.txt lists recorded findings and repaired defects.",
